@@ -78,8 +78,15 @@ const POOL: &[PoolVal] = &[
     // lazy streams stored INSIDE containers (index assignment has to force them at every level)
     PoolVal { src: "[(1 to 3), 5]", big: false },
     PoolVal { src: "{1: (1 to 3), \"a\": [(1 to 2)]}", big: false },
+    // texts of the builtins' own mini-languages (axis specs of `rearrange`, regular expressions, format and
+    // radix texts): well-formed but inconsistent specs must raise, not crash
+    PoolVal { src: "\"a -> a b\"", big: false },
+    PoolVal { src: "\"a b -> b a\"", big: false },
+    PoolVal { src: "\"(a b) c -> a (b c d)\"", big: false },
+    PoolVal { src: "\"(a|b)*[c-\"", big: false },
+    PoolVal { src: "[[1, 2], [3, 4]]", big: false },
 ];
-const QUICK_POOL: &[usize] = &[0, 1, 2, 3, 5, 7, 8, 9, 10, 13, 14, 16, 17, 18, 19, 20, 22, 23, 25, 27, 28, 29, 30, 32, 34, 35, 36, 37, 38, 39, 40, 41];
+const QUICK_POOL: &[usize] = &[0, 1, 2, 3, 5, 7, 8, 9, 10, 13, 14, 16, 17, 18, 19, 20, 22, 23, 25, 27, 28, 29, 30, 32, 34, 35, 36, 37, 38, 39, 40, 41, 42, 43, 46];
 
 #[derive(Clone)]
 struct Case {
@@ -274,6 +281,14 @@ const STMT_TEMPLATES: &[&str] = &[
     // of one applied to an instance of the other is a catchable error
     "struct Pt(px, py); mk := \\ -> (struct Pt(px); Pt(A)); q := mk(); [try py(q) catch e -> 0, try q[py] catch e -> 0, try (q[py] = B) catch e -> 0, try q{py = B} catch e -> 0, try (q[py] += 1) catch e -> 0]",
     "struct Pt(px); mk := \\ -> (struct Pt(px, py, pz); Pt(A, B, C)); q := mk(); [try px(q) catch e -> 0, try q[px] catch e -> 0]",
+    // op-assignment whose TARGET is a struct pattern (`Pt(a, b) f= v` packs the variables into an instance, calls
+    // f, unpacks the result): with the right number of sub-patterns, too few and too many
+    "struct Pt(px, py); a := A; b := B; f := \\p, k -> Pt(py(p), px(p)); Pt(a, b) f= C; [a, b]",
+    "struct Pt(px, py); a := A; g := \\p, k -> py(p); try (Pt(a) g= B) catch e -> 0; a",
+    "struct Pt(px, py); a := A; g := \\p, k -> [px(p), p[py], p]; try (Pt(a) g= B) catch e -> 0; a",
+    "struct Pt(px); a := A; b := B; g := \\p, k -> px(p); try (Pt(a, b) g= C) catch e -> 0; [a, b]",
+    "struct Pt(px, py); a := A; b := B; Pt(a, b) = Pt(B, A); [a, b]",
+    "struct Pt(px, py); switch (A) case Pt(a) -> a case Pt(a, b) -> [a, b] case Pt(a, b, c) -> c case _ -> B",
 ];
 
 /// the statement sweep's programs, in a fixed order (index = case id)
@@ -480,11 +495,11 @@ fn main() {
     install_quiet_panic_hook();
     let mut rep = Report::new("C14", &args);
     rep.rule = "sweep: every global builtin (minus the file/process/network/clock/sleep/stdin list) x every tuple of 0..2 arguments \
-                from the pool (32 values quick / 42 thorough: null, ints incl. +-2^63 / 2^64, rational, floats incl. NaN and inf, \
+                from the pool (35 values quick / 47 thorough: null, ints incl. +-2^63 / 2^64, rational, floats incl. NaN and inf, \
                 complex, strings incl. non-ASCII, lists, dicts with and without default, vectors, bytes incl. non-UTF-8, finite \
                 stream, closures, builtins, containers with an unhashable value nested inside, finite streams whose production raises part-way, advanced list-backed streams) plus sampled 3-tuples, called through Func::run under catch_unwind in child \
                 processes with a 8 s per-case watchdog and a 6 GiB address-space limit; numeric-size builtins are skipped when an \
-                argument is astronomically large. Then try/catch containment through source programs, the statement sweep (56 statement templates x pool tuples, also in watchdogged child processes) and fault-injected \
+                argument is astronomically large. Then try/catch containment through source programs, the statement sweep (62 statement templates x pool tuples, also in watchdogged child processes) and fault-injected \
                 generated programs. non-trivial = a call that raised or returned normally with >= 1 argument; distinct = \
                 distinct call text"
         .into();
